@@ -24,6 +24,8 @@ pub mod sql_rewrite;
 pub mod sql_dml;
 pub mod rowserde;
 pub mod record;
+pub mod sql_autoinc;
+pub mod sql_cons;
 
 pub fn run(engine: &str, ctx: &Ctx) -> Report {
     match engine {
@@ -48,6 +50,8 @@ pub fn run(engine: &str, ctx: &Ctx) -> Report {
         "sql_dml_atomic" => sql_dml::run_atomic(ctx),
         "rowserde" => rowserde::run(ctx),
         "record" => record::run(ctx),
+        "sql_autoinc" => sql_autoinc::run(ctx),
+        "sql_cons" => sql_cons::run(ctx),
         _ => {
             eprintln!("unknown engine {engine}");
             std::process::exit(2);
